@@ -20,6 +20,7 @@ RULE = (
     "input with exactly that binding's value replaced (or, when the name is bound nowhere in the document, the binding at PATH itself overwritten); the "
     "output's token sequence must equal the expected document's, so nothing else changes and the reference stays in place. Sequences of 1-3 such edits "
     "are applied one after another. Non-trivial = shadowing present or chain length >= 2."
+    ' Every twelfth case is an alias-call document (`let v = 1; args = { x = v; }; in let v = 2; in f args`) edited through the CLI helper or the mapping API.'
 )
 ASSUMPTIONS = ["names bound somewhere in the document but not in scope of the reference, cycles, inherited names as PATH and function formals are left undefined by the statement: not judged"]
 
